@@ -26,8 +26,8 @@ import (
 const (
 	c07Hold      = 9
 	c07KA        = 4
-	c07IdleHold  = 5  // holdtimeIdle in fsm.go (implementation-defined by the RFC)
-	c07ResetHold = 7  // idle-hold-time-after-reset configured below
+	c07IdleHold  = 5   // holdtimeIdle in fsm.go (implementation-defined by the RFC)
+	c07ResetHold = 7   // idle-hold-time-after-reset configured below
 	c07OpenSent  = 240 // "large value" of RFC 4271 (4 minutes suggested)
 )
 
@@ -51,11 +51,11 @@ type c07Expect struct {
 }
 
 type c07Scenario struct {
-	m        c07Model
-	lastSeq  int
-	exp      c07Expect
-	ribBefore string
-	pruned   bool
+	m               c07Model
+	lastSeq         int
+	exp             c07Expect
+	ribBefore       string
+	pruned          bool
 	treatAsWithdraw bool
 }
 
